@@ -999,7 +999,7 @@ pub fn eval_solve<VS: HSet>(r: &SolveReq<VS>) -> SolveEval<VS> {
                         }
                     }
                 }
-            } else {
+            } else if VS::DISPLAY_INJECTIVE {
                 failures.push(("C03", "no store snapshot / terminal id emitted for a NoSolution run".into()));
             }
             let mut nodes = vec![];
